@@ -386,6 +386,15 @@ func (x *Exec) identityOf(st *State, v Value) *Term {
 		if len(vv.Names) == 1 {
 			return x.identityOf(st, vv.F[vv.Names[0]])
 		}
+		var ids []*Term
+		for _, n := range vv.Names {
+			ids = append(ids, x.identityOf(st, vv.F[n]))
+		}
+		return App(fmt.Sprintf("tupleid_%d", len(ids)), SInt, ids...)
+	case FuncV:
+		return x.asTerm(vv)
+	case MapV:
+		return vv.ID
 	}
 	return Var(x.fresh("ident"), SInt)
 }
